@@ -28,7 +28,7 @@ ASSUMPTIONS = [
     "a reader 'observes' a status through orchestrator.get_invocation_status and then reads through state_backend.get_result / get_exception and DistributedInvocation.get_final_result",
     "structural equality: exact types, NaN == NaN, exceptions by type and args",
 ]
-REQUIRED_HOOKS = ["final_observations", "results_compared", "exceptions_compared", "nonfinal_reads_checked", "schedules", "result_before_final_asserted"]
+REQUIRED_HOOKS = ["final_observations", "results_compared", "exceptions_compared", "nonfinal_reads_checked", "schedules", "result_before_final_asserted", "rereads_after_later_invocations"]
 SERIALIZERS = {"json": "JsonSerializer", "jsonpickle": "JsonPickleSerializer", "pickle": "PickleSerializer"}
 
 
@@ -61,10 +61,26 @@ def gen_cases(tier, seed):
     return cases
 
 
+SIBLING_SIZES = (60, 5_000, 140_000, 300_000)
+_sibling_serial = [0]
+
+
+def gen_sibling(rng, thr):
+    """results of one family: same length, same beginning and end, a different middle (what distinct invocations of one task return when they
+    process almost the same data); every size class from just externalised to hundreds of kilobytes"""
+    size = max(thr + 40, rng.choice(SIBLING_SIZES))
+    _sibling_serial[0] += 1
+    half = size // 2
+    s_ = "r" * half + f"<{_sibling_serial[0]:08d}>" + "r" * half
+    return rng.choice([s_, [s_], {"rows": s_}])
+
+
 def gen_outcome(rng, dom, thr):
     """-> ('value', v) | ('exc', e)"""
     from pynenc.exceptions import RetryError, PynencError, InvocationError
     r = rng.random()
+    if r < 0.10:
+        return "value", gen_sibling(rng, thr)
     if r < 0.55:
         v = gen_value(rng, dom)
         if rng.random() < 0.35:
@@ -165,7 +181,16 @@ def run_seq(case, V, hooks, distinct):
     with TmpDir() as td:
         cell = Cell(backend, td.db(), dom, thr, f"q{case['seed']}")
         app = cell.app
+        finished = []     # (invocation, expected, witness extras) of the invocations that ended fault-free: read again later
+
+        def reread(tag):
+            for inv_, exp_, we_ in finished:
+                hooks["rereads_after_later_invocations"] += 1
+                inv_._cached_status = None
+                read_and_judge(app, inv_, exp_, V, hooks, tag, {**we_, "reread": True})
         for n in range(case["n"]):
+            if n and n % 25 == 0:
+                reread("client-reread-after-later-invocations")
             kind, val = gen_outcome(rng, dom, thr)
             if kind == "value" and not is_plain(val):
                 continue
@@ -259,8 +284,12 @@ def run_seq(case, V, hooks, distinct):
             except Exception:
                 pass
             distinct.append(["seq", dom, backend, thr, kind, shape(val) if kind == "value" else type(val).__name__, ext])
+            if st.is_final():
+                finished.append((inv, expected, dict(wit_extra)))
+        reread("client-reread-at-the-end")
         flush_history(app)
     hooks["schedules"] += 0
+    hooks["rereads_after_later_invocations"] += 0
     hooks["result_before_final_asserted"] += 0
 
 
